@@ -81,6 +81,9 @@ func TestVerifC02(t *testing.T) {
 		"equivocation predicate = two signed votes with equal (type, height, round) or two signed proposals with equal (height, round) whose signed bytes differ (what consensus.dsVote/dsProposal.IsConflictWith treat as slashable)",
 	)
 	if ev.Replaying() {
+		if c02RealWALReplay(r) { // a case of the real-WAL tier (c02_realwal_test.go)
+			return
+		}
 		var c struct {
 			Config c01Config `json:"config"`
 			Trace  []gEvent  `json:"trace"`
@@ -111,6 +114,10 @@ func TestVerifC02(t *testing.T) {
 	work := filepath.Join(ev.Root(), ".work", "c02-runs")
 	os.MkdirAll(work, 0o755)
 	results := make([]*c01Result, len(cfgs))
+	// extra family: the real wal.go over crashfs under a real engine (c02_realwal_test.go),
+	// run concurrently with the worker configurations below
+	realWALDone := make(chan bool, 1)
+	go func() { realWALDone <- c02RealWAL(r, exe, work) }()
 	ev.Par(len(cfgs), 16, func(i int) {
 		cfg := cfgs[i]
 		if os.Getenv("VERIF_BUDGET_S") != "" {
@@ -138,7 +145,7 @@ func TestVerifC02(t *testing.T) {
 		}
 		results[i] = &res
 	})
-	exhaustive := true
+	exhaustive := <-realWALDone
 	var summary []map[string]interface{}
 	restartStates, resigned := 0, 0
 	for _, res := range results {
